@@ -324,7 +324,7 @@ def serial_subrule(rep: Report, prog: Program, tier: str, PROP: str, RULE: str, 
         f.property = PROP
         f.rule = RULE + "/" + f.rule
         rep.fail(f)
-    rep.rules[RULE]["instances"] += n_ok
+    rep.rules[RULE]["instances"] += n_ok + sum(r["findings"] for k, r in sub.rules.items() if k != "C17-HELPERS")
     rep.rules[RULE]["discharged"] += n_ok
     rep.obligations += n_ok
     rep.discharged += n_ok
@@ -365,3 +365,24 @@ def description_slots_rule(rep: Report, prog: Program, PROP: str, RULE: str) -> 
                 rep.fail(mk_finding(prog, PROP, RULE, fi, stmts[0],
                                     f"{fn}({typ}) leaves current = {show(got[0])}, pending = {show(got[1])}; expected current = {show(want[0])}, pending = {show(want[1])} — "
                                     f"a stale pending description is what `{side.lower()}Description` reports in the next negotiation round", construct=f"{side.lower()} slots after {typ}"))
+
+
+def import_rules(rep: Report, prog: Program, tier: str, PROP: str, RULE: str, module_name: str, only: List[str], what: str, min_instances: int) -> None:
+    """Runs another property's rule module and reports the findings of the rules in `only` under RULE (shared mechanism)."""
+    import importlib
+    mod = importlib.import_module(f"rules.{module_name}")
+    sub = Report(module_name, tier, 0)
+    mod.run(sub, prog, tier)
+    rep.rule(RULE, what, min_instances=min_instances)
+    n_ok = sum(r["discharged"] for k, r in sub.rules.items() if k in only)
+    for f in sub.findings:
+        if f.rule in only:
+            f.property = PROP
+            f.rule = RULE + "/" + f.rule
+            rep.fail(f)
+    rep.rules[RULE]["instances"] += n_ok + sum(r["findings"] for k, r in sub.rules.items() if k in only)
+    rep.rules[RULE]["discharged"] += n_ok
+    rep.obligations += n_ok
+    rep.discharged += n_ok
+    for s in [s for s in sub.samples if s.get("rule") in only][:2]:
+        rep.samples.append(s)
